@@ -236,34 +236,25 @@ func runC20(c *Ctx) {
 		check := cm("checkSize")
 		muts := 0
 		goodC := true
-		for _, a := range storesTo(cp, slotsF) {
+		eachInstrDeep(cp, func(in, site ssa.Instruction, tr func(ssa.Value) ssa.Value) {
+			st, ok := in.(*ssa.Store)
+			if !ok {
+				return
+			}
+			fv, _ := fieldAddrOf(st.Addr)
+			ia, isIdx := st.Addr.(*ssa.IndexAddr)
+			if fv != slotsF && !(isIdx && loadOfField(ia.X, slotsF)) {
+				return
+			}
 			muts++
 			okG := false
 			for _, cs := range callsToFn(cp, check) {
-				if guardedNil(a.Instr.Block(), cs.(ssa.Value)) {
+				if guardedNil(site.Block(), cs.(ssa.Value)) {
 					okG = true
 				}
 			}
 			if !okG {
 				goodC = false
-			}
-		}
-		eachInstr(cp, func(in ssa.Instruction) {
-			st, ok := in.(*ssa.Store)
-			if !ok {
-				return
-			}
-			if ia, ok := st.Addr.(*ssa.IndexAddr); ok && loadOfField(ia.X, slotsF) {
-				muts++
-				okG := false
-				for _, cs := range callsToFn(cp, check) {
-					if guardedNil(st.Block(), cs.(ssa.Value)) {
-						okG = true
-					}
-				}
-				if !okG {
-					goodC = false
-				}
 			}
 		})
 		c.check(goodC && muts >= 3, cp, "slot capacity first", cp.Pos(), "every insertion is preceded by a successful capacity check", "a slot is inserted (or an element overwritten) without the slot-count capacity having been checked on that path")
@@ -557,14 +548,14 @@ func runC20(c *Ctx) {
 		// ordered container: insert at the search position, remove at the found position
 		cp := cm("Push")
 		ins := false
-		eachInstr(cp, func(in ssa.Instruction) {
+		eachInstrDeep(cp, func(in, _ ssa.Instruction, tr func(ssa.Value) ssa.Value) {
 			st, ok := in.(*ssa.Store)
 			if !ok {
 				return
 			}
 			ia, ok := st.Addr.(*ssa.IndexAddr)
 			if ok && loadOfField(ia.X, slotsF) {
-				if _, _, ok := callTo(ia.Index, isSortSearch); ok {
+				if _, _, ok := callTo(tr(ia.Index), isSortSearch); ok {
 					ins = true
 				}
 			}
